@@ -358,14 +358,53 @@ func (p pool) object(rt *rapid.T) objSpec {
 	case k < 65:
 		x, y := p.xy(rt)
 		return objSpec{[]string{"HASH", geohash.EncodeWithPrecision(y, x, uint(rapid.IntRange(1, 12).Draw(rt, "hprec")))}}
-	case k < 93:
+	case k < 91:
 		return objSpec{[]string{"OBJECT", p.geojson(rt, false)}}
+	case k < 93:
+		return objSpec{[]string{"OBJECT", p.nonFinite(rt)}}
 	case k < 97:
 		// geometries without a position: legal, stored, never in the spatial
 		// index, matched by no area (moves turn other objects into these too)
 		return objSpec{[]string{"OBJECT", rapid.SampledFrom(emptyGeoms).Draw(rt, "empty")}}
 	default:
 		return objSpec{[]string{"STRING", rapid.SampledFrom([]string{"hello", "", "12.5", `{"type":"Point","coordinates":[1,2]}`}).Draw(rt, "str")}}
+	}
+}
+
+// nonFinite draws GeoJSON whose coordinates contain null (parsed as NaN where
+// the parser accepts it: Points, also nested) or +-1e999 (parsed as +-Inf
+// everywhere), in x, y or z.
+func (p pool) nonFinite(rt *rapid.T) string {
+	x, y := p.xy(rt)
+	x2, y2 := p.xy(rt)
+	bad := rapid.SampledFrom([]string{"null", "null", "1e999", "-1e999"}).Draw(rt, "badval")
+	inf := rapid.SampledFrom([]string{"1e999", "-1e999"}).Draw(rt, "infval")
+	pt := func(a, b string) string { return "[" + a + "," + b + "]" }
+	switch rapid.IntRange(0, 11).Draw(rt, "nfkind") {
+	case 0:
+		return `{"type":"Point","coordinates":` + pt(bad, fs(y)) + `}`
+	case 1:
+		return `{"type":"Point","coordinates":` + pt(fs(x), bad) + `}`
+	case 2:
+		return `{"type":"Point","coordinates":[` + fs(x) + "," + fs(y) + "," + bad + `]}`
+	case 3:
+		return `{"type":"LineString","coordinates":[` + jpos(x, y) + "," + pt(inf, fs(y2)) + "," + jpos(x2, y2) + `]}`
+	case 4:
+		return `{"type":"Polygon","coordinates":[[` + jpos(x, y) + "," + jpos(x2, y) + "," + pt(fs(x2), inf) + "," + jpos(x, y) + `]]}`
+	case 5:
+		return `{"type":"MultiPoint","coordinates":[` + jpos(x, y) + "," + pt(bad, bad) + "," + pt(fs(x2), bad) + `]}`
+	case 6:
+		return `{"type":"MultiLineString","coordinates":[[` + jpos(x, y) + "," + jpos(x2, y2) + "],[" + jpos(x, y2) + "," + pt(inf, inf) + `]]}`
+	case 7:
+		return `{"type":"MultiPolygon","coordinates":[[` + jring(x, y, x2, y2) + `],[[` + jpos(x, y) + "," + pt(inf, fs(y)) + "," + jpos(x2, y2) + "," + jpos(x, y) + `]]]}`
+	case 8:
+		return `{"type":"Feature","geometry":{"type":"Point","coordinates":` + pt(bad, fs(y)) + `},"properties":{"n":1}}`
+	case 9:
+		return `{"type":"GeometryCollection","geometries":[{"type":"Point","coordinates":` + jpos(x, y) + `},{"type":"Point","coordinates":` + pt(fs(x2), bad) + `}]}`
+	case 10:
+		return `{"type":"FeatureCollection","features":[{"type":"Feature","geometry":{"type":"Point","coordinates":` + pt(bad, bad) + `},"properties":{}}]}`
+	default:
+		return `{"type":"LineString","coordinates":[[` + fs(x) + "," + fs(y) + ",1],[" + fs(x2) + "," + fs(y2) + "," + inf + `]]}`
 	}
 }
 
